@@ -49,7 +49,9 @@ def add_phase_info(gaf_path, tsv_path, out_path):
             tmp = Node(line_elements[3], line_elements[1], line_elements[2])
             phase[line_elements[0]] = tmp
 
-    gaf_out = open(out_path, "w")
+    # the default of --output is the standard output stream itself, not a path
+    to_stream = hasattr(out_path, "write")
+    gaf_out = out_path if to_stream else open(out_path, "w")
 
     line_count = 0
     missing_in_tsv = 0
@@ -106,7 +108,10 @@ def add_phase_info(gaf_path, tsv_path, out_path):
     )
     gaf_file.close()
     tsv_file.close()
-    gaf_out.close()
+    if to_stream:
+        gaf_out.flush()
+    else:
+        gaf_out.close()
 
 
 # fmt: off
